@@ -21,7 +21,7 @@ def run_native(script_lines, logdir, tag, test="isomer_erbium_replay_pool"):
     env.setdefault("VERIF_C16_MIN_COST", "0")
     env["ISOMER_ERBIUM_VERIF_DIR"] = KANI_DIR
     env["CARGO_NET_OFFLINE"] = "true"
-    env["CARGO_TARGET_DIR"] = os.path.join(WORK, "replay-target")
+    env["CARGO_TARGET_DIR"] = os.path.join(WORK, "replay-target" + os.environ.get("VERIF_KANI_TARGET_SUFFIX", ""))
     env["VERIF_REPLAY_FILE"] = spath
     env.pop("RUSTUP_TOOLCHAIN", None)
     cmd = ["cargo", "test", "--offline", "-p", "erbium-core", "--features", "isomer_erbium_verif", "--lib",
@@ -166,11 +166,56 @@ def replay_cache(pid, name, desc, cex, logdir, rpath):
     return False, rpath, "real code satisfies the claims (" + note + ")"
 
 
+def replay_router(pid, name, desc, cex, logdir, rpath):
+    def dom(labels):
+        return ".".join(str(b) for b in labels) if labels else "-"
+    script = []
+    for i, r in enumerate(cex["routes"]):
+        script.append("route %s %d %s" % ("nx" if r["action"] == "forge-nxdomain" else "fwd", 100 + i, " ".join(dom(s) for s in r["suffixes"])))
+    script.append("query %s %d" % (dom(cex["query"]), 1 if cex["rd"] == "True" else 0))
+    json.dump(dict(property=pid, obligation=name, claim=desc, counterexample=cex, script=script, kind="router",
+                   how="/verif/check %s --replay %s" % (pid, rpath)), open(rpath, "w"), indent=1)
+    lines, errtxt = run_native(script, logdir, name, test="isomer_erbium_replay_router")
+    if lines is None:
+        return None, rpath, "native replay did not run: " + errtxt.replace("\n", " ")[-200:]
+    res = [l for l in lines if l.startswith("result")][0].split()[1:]
+    low = lambda b: b + 32 if 65 <= b <= 90 else b  # noqa
+    q = cex["query"]
+    best = None
+    for i, r in enumerate(cex["routes"]):
+        for s in r["suffixes"]:
+            if len(s) <= len(q) and all(low(a) == low(b) for a, b in zip(s, q[len(q) - len(s):])):
+                act = ("nx", None) if r["action"] == "forge-nxdomain" else ("fwd", 100 + i)
+                if best is None or len(s) > best[0]:
+                    best = (len(s), act, False)
+                elif len(s) == best[0] and act != best[1]:
+                    best = (best[0], best[1], True)
+    rd = cex["rd"] == "True"
+    if best is None:
+        want = ["NoRouteConfigured"]
+    elif best[2]:
+        want = None
+    elif best[1][0] == "nx":
+        want = ["Blocked"]
+    else:
+        want = ["forwarded", str(best[1][1])] if rd else ["NotAuthoritative"]
+    note = f"real (lifted) router code answered {res}, the longest matching suffix requires {want}"
+    if want is not None and res != want:
+        return True, rpath, "reproduced: " + note
+    return False, rpath, note
+
+
 def replay_cex(pid, name, desc, cex, logdir):
     """-> (reproduced bool|None, replay path, note)"""
     rdir = os.path.join(common.REPLAY_DIR, pid)
     os.makedirs(rdir, exist_ok=True)
     rpath = os.path.join(rdir, name + ".json")
+    if "routes" in cex:
+        return replay_router(pid, name, desc, cex, logdir, rpath)
+    if "acl_verdict" in cex:
+        json.dump(dict(property=pid, obligation=name, claim=desc, counterexample=cex,
+                       how="re-run: /verif/check %s --only %s" % (pid, name)), open(rpath, "w"), indent=1)
+        return None, rpath, "counterexample is a path through the lifted ACL gate (arbitrary ACL verdict); no native replay"
     if "ttls" in cex:
         return replay_cache(pid, name, desc, cex, logdir, rpath)
     op = "metrics" if pid == "C20" else "allocate"
